@@ -17,7 +17,7 @@ from . import common
 
 ID = 'C10'
 LEVEL = 'fault_enumeration'
-RUNS = {'quick': 4000, 'thorough': 60000}
+RUNS = {'quick': 16000, 'thorough': 100000}
 SIM_TIME_UNIT = 'updates'
 RULE = ('seeded generation of (online specification incl. sub-specs and pastified ones, pre-history of 0..10 updates with clock '
         'faults, post sequence of 1..8 updates); inside each run reset() is injected at every position 0..m of the pre-history '
